@@ -186,32 +186,34 @@ theorem addToMem_good {s : State} (hs : s.cfg.skipVerify = false) (hg : GoodStor
     · cases h
     · split at h
       · cases h
-      · rename_i hv
-        have hv' : verifyOK H s.cfg name a.data = true := by simpa using hv
-        have hb := verifyOK_hash hs hv'
-        split at h
+      · split at h
         · cases h
-        · split at h
+        · rename_i hv
+          have hv' : verifyOK H s.cfg name a.data = true := by simpa using hv
+          have hb := verifyOK_hash hs hv'
+          split at h
           · cases h
-          · rename_i hadd
-            cases h
-            have hadd' : (MemCache.add s.mem name (newEntry crc s name a.data pl)).2 = true := by simpa using hadd
-            unfold MemCache.add at hadd' ⊢
-            split at hadd'
-            · cases hadd'
-            · rename_i hnot
-              simp only [hnot]
-              refine ⟨?_, hg.cache, ?_⟩
-              · intro p hp
-                simp at hp
-                rcases hp with e | hp
-                · subst e; exact ⟨hb, rfl⟩
-                · exact hg.mem p hp
-              · intro it hit
-                simp at hit
-                rcases hit with hit | e
-                · exact hg.queue it hit
-                · subst e; exact ⟨hb, rfl⟩
+          · split at h
+            · cases h
+            · rename_i hadd
+              cases h
+              have hadd' : (MemCache.add s.mem name (newEntry crc s name a.data pl)).2 = true := by simpa using hadd
+              unfold MemCache.add at hadd' ⊢
+              split at hadd'
+              · cases hadd'
+              · rename_i hnot
+                simp only [hnot]
+                refine ⟨?_, hg.cache, ?_⟩
+                · intro p hp
+                  simp at hp
+                  rcases hp with e | hp
+                  · subst e; exact ⟨hb, rfl⟩
+                  · exact hg.mem p hp
+                · intro it hit
+                  simp at hit
+                  rcases hit with hit | e
+                  · exact hg.queue it hit
+                  · subst e; exact ⟨hb, rfl⟩
 
 theorem reserved_good {s : State} (hg : GoodStore H crc s) (size : Nat) : GoodStore H crc (reserved s size) :=
   hg.of_eq (tryReserve_entries _ _) rfl rfl
@@ -319,7 +321,9 @@ theorem addToMem_cfg {s s' : State} {name : Name} {att : Option Attempt} {size :
         · cases h
         · split at h
           · cases h
-          · cases h; rfl
+          · split at h
+            · cases h
+            · cases h; rfl
 
 theorem writeBlob_cfg (s : State) (name : Name) (size : Nat) (atts : List Attempt) (pl : Int) :
     (writeBlob H crc s name size atts pl).1.cfg = s.cfg := by
@@ -408,7 +412,9 @@ theorem addToMem_mismatch {s : State} (hs : s.cfg.skipVerify = false) {name : Na
     · simp [hf]
     · by_cases hf : a.fail = true
       · simp [hf]
-      · simp [hf, verifyOK_false_of_ne hs hne]
+      · by_cases hl : a.data.length = size
+        · simp [hf, hl, verifyOK_false_of_ne hs hne]
+        · simp [hf, hl]
 
 theorem head?_mem {α : Type} {l : List α} {a : α} (h : l.head? = some a) : a ∈ l := by
   cases l with
